@@ -11,6 +11,7 @@ import argparse
 import contextlib
 import io
 import itertools
+import re
 import os
 import shutil
 import tempfile
@@ -87,13 +88,22 @@ S3      RTS
 """.splitlines()
 
 CORPUS = {"readme": README, "classes": CLASSES, "pcr": PCRS}
-PUNCT = list("#<>[],+-$%'\"/;:.@*()=!&^?") + ["\t", "\x01", "\x7f"]
+PUNCT = list("#<>[],+-$%'\"/;:.@*()=!&^?") + ["\t", "\x01", "\x7f", "\u00e9", "\u20ac", "\u0100"]
+
+
+_FCC_RE = re.compile(r"^([^\s;]*)[ \t]+([Ff][Cc][Cc])[ \t]+(.*)$")
 
 
 def split_fields(line):
     """-> (label, mnemonic, operand, comment) by the documented column layout"""
     if not line.strip() or line.strip().startswith(";"):
         return None
+    m = _FCC_RE.match(line)
+    if m and m.group(3) and m.group(3)[0] not in " \t" and m.group(3).find(m.group(3)[0], 1) > 0:
+        # FCC: the operand is the text between a matching pair of delimiters, verbatim (it may hold ';', spaces, tabs)
+        text = m.group(3)
+        end = text.find(text[0], 1)
+        return m.group(1), m.group(2), text[:end + 1], text[end + 1:].strip().lstrip(";").strip()
     body, _, comment = line.partition(";")
     label = "" if body[:1] in (" ", "\t") else body.split()[0]
     rest = body[len(label):].split(None, 1)
